@@ -738,7 +738,8 @@ def mk_read(ctx):
     """MerkleReg::read = every root hash looked up in dag."""
     facts = ctx.facts
     body = ctx.inherent(MERKLE, 'read')
-    raw = general_ret(facts, body, {'roots': (1, ('roots',))}) or interp(facts, body).ret     # `if self.roots.is_empty() { empty }`
+    # `if self.roots.is_empty() || self.dag.is_empty() { empty }`: no root, or nothing a root could be looked up in
+    raw = general_ret(facts, body, {'roots': (1, ('roots',)), 'dag': (1, ('dag',))}) or interp(facts, body).ret
     r = drop_lv(raw)
     ok = False
     rr = raw
@@ -1187,7 +1188,13 @@ def list_apply(ctx):
                     and param_path(versionless(pr[1]))[1][-1:] == (want,):
                 return 'present' if pr[2] else ('not', 'present')
             return None
-        rc, _ = _gate_eval(ctx, body, 'crdts::list::Op', v, LT, found, extra_atom=present, extra_asm={'present': v == 'Delete'})
+        # (a Delete is judged where its identifier is present; the sequence is then not empty: `if !self.seq.is_empty() { remove }`)
+        seq_empty = emptiness_atom({'seq_empty': (1, ('seq',))})
+        asm_ = {'present': v == 'Delete'}
+        if v == 'Delete':
+            asm_['seq_empty'] = False
+        rc, _ = _gate_eval(ctx, body, 'crdts::list::Op', v, LT, found,
+                           extra_atom=(lambda t: present(t) or seq_empty(t)) if v == 'Delete' else present, extra_asm=asm_)
         good, other = [], []
         for bb, c in it.calls.items():
             if bb not in rc.reachable:
